@@ -403,10 +403,10 @@ Proof. intros w a v w1 ok H. unfold handle_result in H.
 Lemma cancel_msgs_tasks : forall w m n i, chan_tasks (cancel_msgs w m i n) = [].
 Proof. induction n; simpl; intros; auto. Qed.
 
-Lemma close_boxes_A : forall owned skip w w1 ok, close_boxes owned skip w = (w1, ok) -> sameA w w1.
-Proof. induction owned as [|m r IH]; simpl; intros skip w w1 ok H.
+Lemma close_boxes_A : forall owned w w1 ok, close_boxes owned w = (w1, ok) -> sameA w w1.
+Proof. induction owned as [|m r IH]; simpl; intros w w1 ok H.
   - injection H as <- <-. apply sameA_refl.
-  - destruct skip; [eapply IH; eauto|].
+  - idtac.
     destruct (box_get m (w_boxes w)) as [b|]; [|injection H as <- <-; sameA_tac].
     destruct (b_ready b).
     + apply IH in H. eapply sameA_trans; [|exact H]. sameA_tac.
@@ -509,7 +509,7 @@ Proof.
   - destruct (handle_result w (t_addr t) v) as [w' ok'] eqn:E. pose proof (handle_result_A _ _ _ _ _ E) as S1.
     pose proof (handle_result_tasks _ _ _ _ _ E) as S2.
     destruct ok'; cbn [negb] in H.
-    + destruct (close_boxes (t_owned t) false _) as [w3 ok3] eqn:E3 in H. injection H as <- <-.
+    + destruct (close_boxes (t_owned t) _) as [w3 ok3] eqn:E3 in H. injection H as <- <-.
       apply close_boxes_A in E3. right.
       destruct S1 as (A1&A2&A3&A4&A5&A6&A7&A8). destruct E3 as (B1&B2&B3&B4&B5&B6&B7&B8).
       cbn [set_finished set_tasks send set_out w_id w_tasks w_delayed w_out w_created w_finished w_started w_counter] in *.
@@ -517,7 +517,7 @@ Proof.
       repeat split; congruence.
     + injection H as <- <-. left. exact S1.
   - cbn [negb] in H.
-    destruct (close_boxes (t_owned t) false _) as [w3 ok3] eqn:E3 in H. injection H as <- <-.
+    destruct (close_boxes (t_owned t) _) as [w3 ok3] eqn:E3 in H. injection H as <- <-.
     apply close_boxes_A in E3. right. destruct E3 as (B1&B2&B3&B4&B5&B6&B7&B8).
     cbn [set_finished set_tasks send set_out w_id w_tasks w_delayed w_out w_created w_finished w_started w_counter] in *.
     rewrite chan_tasks_app in B4. simpl in B4. rewrite app_nil_r in B4.
@@ -1294,12 +1294,12 @@ Definition frameV (w w' : wstate) : Prop :=
 Lemma frameV_trans : forall a b c, frameV a b -> frameV b c -> frameV a c.
 Proof. unfold frameV. intros a b c (A1&A2&A3&A4&A5&A6&A7&A8) (B1&B2&B3&B4&B5&B6&B7&B8). repeat split; congruence. Qed.
 
-Lemma close_boxes_V : forall owned skip w w1 ok, winvV w -> close_boxes owned skip w = (w1, ok) ->
+Lemma close_boxes_V : forall owned w w1 ok, winvV w -> close_boxes owned w = (w1, ok) ->
   winvV w1 /\ ext w w1 /\ frameV w w1.
 Proof.
-  induction owned as [|m r IH]; simpl; intros skip w w1 ok I H.
+  induction owned as [|m r IH]; simpl; intros w w1 ok I H.
   - injection H as <- <-. split; auto. split; [apply ext_refl|]. repeat split.
-  - destruct skip; [eapply IH; eauto|].
+  - idtac.
     destruct (box_get m (w_boxes w)) as [b|] eqn:Eb.
     2:{ injection H as <- <-. split; [eapply winvV_same; [| | | | |exact I]; reflexivity|].
         split; [apply ext_same; reflexivity|]. repeat split. }
@@ -1662,8 +1662,8 @@ Proof.
         - eapply winvV_same; [| | | | |exact I']; reflexivity.
         - simpl. rewrite C6. exact Hp.
         - intros t' Hin. apply In_task_del in Hin. exact Hin. }
-      destruct (close_boxes (t_owned t) false w2) as [w3 ok3] eqn:Ec. injection H as <- <-.
-      destruct (close_boxes_V _ _ _ _ _ I2 Ec) as (I3 & E3 & (F1&F2&F3&F4&F5&F6&F7&F8)).
+      destruct (close_boxes (t_owned t) w2) as [w3 ok3] eqn:Ec. injection H as <- <-.
+      destruct (close_boxes_V _ _ _ _ I2 Ec) as (I3 & E3 & (F1&F2&F3&F4&F5&F6&F7&F8)).
       split; [exact I3|]. split; [eapply ext_trans; [exact E'|]; eapply ext_trans; [|exact E3]; apply ext_same; reflexivity|].
       subst w2. simpl in *.
       split; [congruence|]. split; [congruence|]. split; [congruence|]. split; [congruence|].
@@ -1683,8 +1683,8 @@ Proof.
       - eapply winvV_same; [| | | | |exact I]; reflexivity.
       - exact Hp.
       - intros t' Hin. apply In_task_del in Hin. exact Hin. }
-    destruct (close_boxes (t_owned t) false w2) as [w3 ok3] eqn:Ec. injection H as <- <-.
-    destruct (close_boxes_V _ _ _ _ _ I2 Ec) as (I3 & E3 & (F1&F2&F3&F4&F5&F6&F7&F8)).
+    destruct (close_boxes (t_owned t) w2) as [w3 ok3] eqn:Ec. injection H as <- <-.
+    destruct (close_boxes_V _ _ _ _ I2 Ec) as (I3 & E3 & (F1&F2&F3&F4&F5&F6&F7&F8)).
     split; [exact I3|]. split; [eapply ext_trans; [|exact E3]; apply ext_same; reflexivity|].
     subst w2 w0. simpl in *.
     split; [congruence|]. split; [congruence|]. split; [congruence|]. split; [congruence|].
@@ -2489,10 +2489,10 @@ Proof. intros w a v w1 ok H. unfold handle_result in H.
   destruct (task_get d (w_tasks w)) as [t|]; [|injection H as <- <-; simpl; repeat split; auto].
   destruct (t_won t || b_ready b1); injection H as <- <-; simpl; repeat split; auto. Qed.
 
-Lemma close_boxes_B : forall owned skip w w1 ok, close_boxes owned skip w = (w1, ok) -> sameB w w1.
-Proof. induction owned as [|m r IH]; simpl; intros skip w w1 ok H.
+Lemma close_boxes_B : forall owned w w1 ok, close_boxes owned w = (w1, ok) -> sameB w w1.
+Proof. induction owned as [|m r IH]; simpl; intros w w1 ok H.
   - injection H as <- <-. apply sameB_refl.
-  - destruct skip; [eapply IH; eauto|].
+  - idtac.
     destruct (box_get m (w_boxes w)) as [b|]; [|injection H as <- <-; sameB_tac].
     destruct (b_ready b); apply IH in H; (eapply sameB_trans; [|exact H]); sameB_tac.
     simpl. rewrite chan_res_app, cancel_msgs_res. apply app_nil_r. Qed.
@@ -2544,7 +2544,7 @@ Proof.
   - destruct (handle_result w (t_addr t) v) as [w' ok'] eqn:E.
     destruct (handle_result_B _ _ _ _ _ E) as (B1 & B2 & B3 & B4 & B5).
     destruct ok'; cbn [negb] in H.
-    + destruct (close_boxes (t_owned t) false _) as [w3 ok3] eqn:E3 in H. injection H as <- <-.
+    + destruct (close_boxes (t_owned t) _) as [w3 ok3] eqn:E3 in H. injection H as <- <-.
       apply close_boxes_B in E3. destruct E3 as (C1&C2&C3&C4&C5&C6).
       cbn [set_finished set_tasks send set_out w_out w_deposited w_dropped w_stuck w_finished w_tasks] in *.
       exists [(t_addr t, v)]. split; [rewrite C5, B3; reflexivity|].
@@ -2560,7 +2560,7 @@ Proof.
       * intro x. rewrite B2, B4, cnt_app, cnt_single. destruct (addr_eqb x (t_addr t)) eqn:Ex; [|lia].
         apply addr_eqb_eq in Ex. subst x. lia.
       * intro x. rewrite B4. rewrite cnt_nil. lia.
-  - cbn [negb] in H. destruct (close_boxes (t_owned t) false _) as [w3 ok3] eqn:E3 in H. injection H as <- <-.
+  - cbn [negb] in H. destruct (close_boxes (t_owned t) _) as [w3 ok3] eqn:E3 in H. injection H as <- <-.
     apply close_boxes_B in E3. destruct E3 as (C1&C2&C3&C4&C5&C6).
     cbn [set_finished set_tasks send set_out w_out w_deposited w_dropped w_stuck w_finished w_tasks] in *.
     exists [(t_addr t, v)]. split; [rewrite C5; reflexivity|].
@@ -2686,10 +2686,10 @@ Proof.
   - destruct (handle_result w (t_addr t) v) as [w' ok'] eqn:E.
     destruct (handle_result_B _ _ _ _ _ E) as (B1 & B2 & B3 & B4 & B5).
     destruct ok'; cbn [negb] in H.
-    + destruct (close_boxes (t_owned t) false _) as [w3 ok3] eqn:E3 in H. injection H as <- <-.
+    + destruct (close_boxes (t_owned t) _) as [w3 ok3] eqn:E3 in H. injection H as <- <-.
       apply close_boxes_B in E3. destruct E3 as (C1&C2&C3&C4&C5&C6). left. rewrite C4. simpl. exact B2.
     + injection H as <- <-. right. simpl. rewrite B2, B4. auto.
-  - cbn [negb] in H. destruct (close_boxes (t_owned t) false _) as [w3 ok3] eqn:E3 in H. injection H as <- <-.
+  - cbn [negb] in H. destruct (close_boxes (t_owned t) _) as [w3 ok3] eqn:E3 in H. injection H as <- <-.
     apply close_boxes_B in E3. destruct E3 as (C1&C2&C3&C4&C5&C6). left. rewrite C4. reflexivity.
 Qed.
 
@@ -3111,12 +3111,12 @@ Proof.
     simpl. intros e He. apply in_app_or in He. destruct He as [He|[<-|[]]]; auto.
 Qed.
 
-Lemma close_boxes_C : forall owned skip w w1 ok, winvC w -> NoDup (keys (w_boxes w)) -> close_boxes owned skip w = (w1, ok) ->
+Lemma close_boxes_C : forall owned w w1 ok, winvC w -> NoDup (keys (w_boxes w)) -> close_boxes owned w = (w1, ok) ->
   winvC w1 /\ (forall e, In e (w_errs w1) -> In e (w_errs w) \/ e = EKeyBox).
 Proof.
-  induction owned as [|m r IH]; simpl; intros skip w w1 ok I Hnd H.
+  induction owned as [|m r IH]; simpl; intros w w1 ok I Hnd H.
   - injection H as <- <-. auto.
-  - destruct skip; [eapply IH; eauto|].
+  - idtac.
     destruct (box_get m (w_boxes w)) as [b|] eqn:Eb.
     2:{ injection H as <- <-. split; [eapply winvC_same; [| | | |exact I]; reflexivity|].
         simpl. intros e He. apply in_app_or in He. destruct He as [He|[<-|[]]]; auto. }
@@ -3268,11 +3268,11 @@ Proof.
     destruct (handle_result_V _ _ _ _ _ IV Hown Eh) as (IV' & _).
     destruct (handle_result_C _ _ _ _ _ I Hown Eh) as (I' & _).
     destruct ok'; cbn [negb] in H.
-    + destruct (close_boxes (t_owned t) false _) as [w3 ok3] eqn:Ec in H. injection H as <- <-.
-      eapply (close_boxes_C _ _ _ _ _ _ _ Ec).
+    + destruct (close_boxes (t_owned t) _) as [w3 ok3] eqn:Ec in H. injection H as <- <-.
+      eapply (close_boxes_C _ _ _ _ _ _ Ec).
     + injection H as <- <-. eapply winvC_same; [| | | |exact I']; reflexivity.
-  - cbn [negb] in H. destruct (close_boxes (t_owned t) false _) as [w3 ok3] eqn:Ec in H. injection H as <- <-.
-    eapply (close_boxes_C _ _ _ _ _ _ _ Ec).
+  - cbn [negb] in H. destruct (close_boxes (t_owned t) _) as [w3 ok3] eqn:Ec in H. injection H as <- <-.
+    eapply (close_boxes_C _ _ _ _ _ _ Ec).
   Unshelve.
   + eapply winvC_same; [| | | |exact I']; reflexivity.
   + simpl. apply (V_keys w' IV').
@@ -3638,7 +3638,7 @@ Proof. intros w w' H1 H2 H3 H4 H5 [K1 K2 K3 K4 K5 K6]. constructor.
 Lemma b_ready_mono : forall b slot v b1 ok, deposit b slot v = (b1, ok) -> b_ready b = true -> b_ready b1 = true.
 Proof. intros b slot v b1 ok H R. unfold deposit in H. unfold b_ready in *. apply andb_true_iff in R. destruct R as [R1 R2]. b2p.
   destruct (b_single b); [|destruct (Nat.ltb slot (length (b_result b)))]; injection H as <- <-; simpl;
-    apply andb_true_iff; split; try (apply Nat.leb_le; lia); reflexivity. Qed.
+    apply andb_true_iff; split; try (apply Nat.leb_le; lia); first [reflexivity|exact R2]. Qed.
 Lemma deposit_fresh : forall b slot v b1 ok, deposit b slot v = (b1, ok) -> b_fresh b1 <> None.
 Proof. intros b slot v b1 ok H. unfold deposit in H.
   destruct (b_single b); [|destruct (Nat.ltb slot (length (b_result b)))]; injection H as <- <-; simpl; discriminate. Qed.
@@ -4039,18 +4039,18 @@ Proof.
   - rewrite Hs in H. cbn [negb] in H. destruct (remove_first m (t_owned t)); [discriminate|]. injection H as <-. split; discriminate.
 Qed.
 
-Lemma close_boxes_oos : forall owned skip w w1 ok, close_boxes owned skip w = (w1, ok) -> w_oos w = true -> w_oos w1 = true.
-Proof. induction owned as [|m r IH]; simpl; intros skip w w1 ok H Ho.
+Lemma close_boxes_oos : forall owned w w1 ok, close_boxes owned w = (w1, ok) -> w_oos w = true -> w_oos w1 = true.
+Proof. induction owned as [|m r IH]; simpl; intros w w1 ok H Ho.
   - injection H as <- <-. auto.
-  - destruct skip; [eapply IH; eauto|]. destruct (box_get m (w_boxes w)); [|injection H as <- <-; auto].
+  - destruct (box_get m (w_boxes w)); [|injection H as <- <-; auto].
     destruct (b_ready m0); eapply IH; eauto. Qed.
 
-Lemma close_boxes_D : forall owned skip w w1 ok, winvD w -> NoDup (keys (w_boxes w)) ->
-  close_boxes owned skip w = (w1, ok) -> w_oos w1 = true \/ winvD w1.
+Lemma close_boxes_D : forall owned w w1 ok, winvD w -> NoDup (keys (w_boxes w)) ->
+  close_boxes owned w = (w1, ok) -> w_oos w1 = true \/ winvD w1.
 Proof.
-  induction owned as [|m r IH]; simpl; intros skip w w1 ok ID Hnd H.
+  induction owned as [|m r IH]; simpl; intros w w1 ok ID Hnd H.
   - injection H as <- <-. auto.
-  - destruct skip; [eapply IH; eauto|].
+  - idtac.
     destruct (box_get m (w_boxes w)) as [b|] eqn:Eb.
     2:{ injection H as <- <-. right. apply winvD_errs; auto; discriminate. }
     destruct (b_ready b).
@@ -4075,11 +4075,11 @@ Proof.
     destruct (handle_result_D _ _ _ _ _ IV IC ID Dp Hown Hfresh Eh) as (ID' & Z').
     destruct (handle_result_V _ _ _ _ _ IV Hown Eh) as (IV' & _ & _ & T' & _).
     destruct ok'; cbn [negb] in H.
-    + destruct (close_boxes (t_owned t) false _) as [w3 ok3] eqn:Ec in H. injection H as <- <-.
-      eapply (close_boxes_D _ _ _ _ _ _ _ Ec).
+    + destruct (close_boxes (t_owned t) _) as [w3 ok3] eqn:Ec in H. injection H as <- <-.
+      eapply (close_boxes_D _ _ _ _ _ _ Ec).
     + injection H as <- <-. right. eapply winvD_same; [| | | | |exact ID']; reflexivity.
-  - cbn [negb] in H. destruct (close_boxes (t_owned t) false _) as [w3 ok3] eqn:Ec in H. injection H as <- <-.
-    eapply (close_boxes_D _ _ _ _ _ _ _ Ec).
+  - cbn [negb] in H. destruct (close_boxes (t_owned t) _) as [w3 ok3] eqn:Ec in H. injection H as <- <-.
+    eapply (close_boxes_D _ _ _ _ _ _ Ec).
   Unshelve.
   + eapply winvD_same; [| | | | |apply (winvD_task_del (send w' MUpdate) (t_addr t))]; try reflexivity.
     * eapply winvD_same; [| | | | |exact ID']; reflexivity.
@@ -4195,10 +4195,10 @@ Proof. intros w t v w1 ok H Ho. unfold complete in H.
   destruct (dest_eqb (a_w (t_addr t)) (me w)).
   - destruct (handle_result w (t_addr t) v) as [w' ok'] eqn:E. apply handle_result_oos in E.
     destruct ok'; cbn [negb] in H.
-    + destruct (close_boxes (t_owned t) false _) as [w3 ok3] eqn:Ec in H. injection H as <- <-.
+    + destruct (close_boxes (t_owned t) _) as [w3 ok3] eqn:Ec in H. injection H as <- <-.
       eapply close_boxes_oos; [exact Ec|]. simpl. congruence.
     + injection H as <- <-. simpl. congruence.
-  - cbn [negb] in H. destruct (close_boxes (t_owned t) false _) as [w3 ok3] eqn:Ec in H. injection H as <- <-.
+  - cbn [negb] in H. destruct (close_boxes (t_owned t) _) as [w3 ok3] eqn:Ec in H. injection H as <- <-.
     eapply close_boxes_oos; [exact Ec|]. simpl. exact Ho. Qed.
 Lemma dispatch_oos : forall atomic w a, w_oos w = true -> w_oos (dispatch atomic w a) = true.
 Proof. intros atomic w a Ho. unfold dispatch.
